@@ -141,8 +141,15 @@ impl crate::IncrState {
             }
             if n.is_valid() {
                 if let Scope::Bind(w) = &e.created_in {
-                    if w.upgrade().is_some() {
-                        if let Ok(sh) = catch_unwind(AssertUnwindSafe(|| e.created_in.height())) {
+                    if let Some(scope) = w.upgrade() {
+                        // the height of the bind's change-detecting node itself (the node that runs the
+                        // closure), looked up in the registry rather than through Scope::height
+                        let change_node = nodes.iter().find(|m| m.id() == scope.id());
+                        let sh = match change_node {
+                            Some(m) if m.is_necessary() => Ok(m.height()),
+                            _ => catch_unwind(AssertUnwindSafe(|| e.created_in.height())),
+                        };
+                        if let Ok(sh) = sh {
                             if h <= sh {
                                 out.push(format!("node {id:?}: height {h} not above its creating bind ({sh})"));
                             }
